@@ -469,6 +469,11 @@ def c14_directed(rng, cfg, kind=None):
     r = rng
     kinds = [k for k in TAIL_KINDS if not (k == "heartbeat" and h.vi < 2)]
     kind = kind if kind in kinds else r.choice(kinds)
+    x = r.random()
+    if h.vi >= 2 and x < 0.10:
+        return c14_confirm_desired(h)
+    if h.vi >= 4 and x < 0.22:
+        return c14_failed_save(h)
     nodes = seed_network(h)
     if r.random() < 0.5:
         h.filler(r.randrange(1, 8))
@@ -491,6 +496,67 @@ def c14_directed(rng, cfg, kind=None):
             h.ops.append(("save",))
             h.state_change(kd, n=n)
         h.ops.append(("restart",))
+    return h.ops
+
+
+def c14_confirm_desired(h):
+    """A smart sleeping node confirms, right after a save tick, exactly the value the controller desired:
+    the stored value changes (old reported value -> confirmed value) although the desired value was already that."""
+    r = h.r
+    n = r.choice([1, 7, 42])
+    h.node(n)
+    for c in (1, 2)[:r.choice([1, 2])]:
+        h.child(n, c)
+    c = r.choice(h.known[n])
+    sub = h.free_sub()
+    h.set(n, c, sub, r.choice(["0", "old", ""]))
+    if r.random() < 0.5:
+        h.filler(r.randrange(1, 5), calls=False)
+    h.wake(n)
+    want = r.choice(["1", "new", 5, "名"])
+    h.setchild(n, c, sub, want)
+    if r.random() < 0.5:
+        h.wake(n)                       # the set command goes out with the wake-up burst
+    h.drain()
+    h.ops.append(("save",))
+    h.set(n, c, sub, str(want))         # the node confirms: reported value := desired value
+    h.drain()
+    h.ops.append(("restart",))
+    return h.ops
+
+
+def c14_failed_save(h):
+    """(2.2) A periodic save FAILS in the serialiser because the wake-up announcement of a smart sleeping node is
+    handled while its desired-state table is being pickled (op save_fail_during; the announcement itself marks nothing
+    as changed).  The failed save must leave the state marked unsaved: the child presented before it is still
+    written by stop()."""
+    r = h.r
+    n = r.choice([1, 7, 42])
+    other = r.choice([2, 9])
+    h.node(n)
+    h.node(other)
+    for c in (1, 2, 3)[:r.choice([2, 3])]:
+        h.child(n, c, typ=r.choice([0, 1, 3, 6, 16]))     # (17/18 would be node presentations)
+    h.wake(n)                           # desired-state table now has >= 2 entries
+    h.drain()
+    h.ops.append(("save",))
+    c3 = r.choice([10, 77])
+    h.child(n, c3, typ=r.choice([0, 1, 3, 6, 16]))                      # unsaved change; c3 is not in the desired-state table yet
+    h.set(n, c3, h.free_sub(), "v%d" % r.randrange(1000))
+    h.drain()
+    mark = len(h.ops)
+    h.internal(n, 32, "500")            # I_PRE_SLEEP_NOTIFICATION: adds c3 to the table, no alert
+    new = h.ops[mark:]
+    if h.sync:
+        j = next(i for i, o in enumerate(new) if o == ("pump",))
+        new[j] = ("save_fail_during", ("pump",))
+    else:
+        new[0] = ("save_fail_during", new[0])
+    h.ops[mark:] = new
+    h.drain()
+    if r.random() < 0.3:
+        h.ops.append(("save",))
+    h.ops.append(("restart",))
     return h.ops
 
 
